@@ -1,9 +1,18 @@
+pub mod common;
+pub mod c02;
+pub mod c03;
+pub mod c06;
+pub mod c07;
 pub mod c12;
 
 use crate::engine::{run, Opts};
 
 pub fn dispatch(id: &str, opts: &Opts) -> i32 {
     match id {
+        "C02" => run(&c02::C02, opts),
+        "C03" => run(&c03::C03, opts),
+        "C06" => run(&c06::C06, opts),
+        "C07" => run(&c07::C07, opts),
         "C12" => run(&c12::C12, opts),
         _ => {
             eprintln!("unknown property {}", id);
